@@ -4,7 +4,7 @@ from props import solverstream as ss
 
 THEOREMS = ["C04_render_terminates", "C04_render_fuel_irrelevant", "C04_render_lines_linear", "C04_render_lines_fine",
             "C04_render_lines_quadratic", "C04_render_size_bound", "C04_simplify_order_independent", "C04_dfs_fuel_sufficient",
-            "C04_pre_fix_renderer_loops", "C04_path_only_exponential"]
+            "C04_pre_fix_renderer_loops", "C04_path_only_exponential", "C04_requires_assert_cannot_fail"]
 CHECKER = ("coqc Props/C04.v + Print Assumptions; harness solve_cases under catch_unwind + poll watchdog + output-size cap, debug "
            "and release, sync and yielding runtimes; every conflict message compared BYTE FOR BYTE with the extracted renderer model "
            "(Conflict/Render.v) and its line count with the proven bound lin_bound; a sample re-proved inside Coq")
@@ -28,6 +28,21 @@ def run(res, tier, seed, replay):
                    ("small", 255, "yield", "debug", 400 * n), ("greedy", 25, "sync", "debug", 300 * n)]
         r2, hangs = ss.run_streams(streams, seed + 41, render=True)
         recs += r2
+    # ---- the hypotheses of C04_requires_assert_cannot_fail on real runs (hook logs; hinted universes reach the guarded path)
+    from props import enctie
+    if replay:
+        erecs = []
+    else:
+        n2 = 1 if tier == "quick" else 25
+        erecs, eh = ss.run_streams([("small", 255, "sync", "debug", 500 * n2), ("dense", 255, "sync", "debug", 300 * n2),
+                                    ("conflict", 255, "gated:random", "debug", 200 * n2)], seed + 47, dump=True)
+        hangs += eh
+    enctie.annotate(erecs)
+    for r in erecs:
+        if "enc" in r and not enctie.ok(r, ("db", "done", "req_true", "quiet", "assert")):
+            res.tie_break(f"encoder correspondence / hypotheses of C04_requires_assert_cannot_fail no longer check in {r['stream']}: "
+                          f"{r['enc']} (db = clause database equal to the model's, req_true = encode only for true variables, quiet = trail "
+                          f"untouched while futures are pending, assert = the model's assert_ne!)", enctie.replay(r))
     hist, maxratio, classes = {}, 0.0, {}
     for h in hangs:
         res.violation(f"hang-{h['stream'].replace('/', '_')}-{h['id']}", f"case did not finish within the watchdog time: {h}", h)
@@ -53,6 +68,7 @@ def run(res, tier, seed, replay):
                 if c["msg_bytes"] > b:
                     res.violation(key, f"message of {c['msg_bytes']} bytes exceeds the bound {b} for a graph of "
                                   f"{len(c['graph']['nodes'])} nodes / {len(c['graph']['edges'])} edges", ss.replay_obj(r))
+    res.extra.update(enctie.stats(erecs))
     # ---- renderer model: byte-for-byte message, proven line bound, in-Coq sample
     from props import render_tie
     rrecs = [r for r in recs if r["obs"].get("conflict") and render_tie.usable(r)]
